@@ -83,7 +83,8 @@ StripEsc(nm) == IF Len(nm) > 1 /\ SubSeq(nm, 1, 1) = "\\" THEN SubSeq(nm, 2, Len
 (* props (parameter P = props); a Verilog-read netlist carries them in VERILOG.InlineConstraints / Parameters *)
 VAttrOf(d, isInst) ==
     IF d.vattr # NoVal THEN d.vattr
-    ELSE LET a == IF d.k = NoVal THEN "" ELSE "attr:A=" \o d.k
+    \* the attribute value is written as a quoted string with white space inside: "k<tab>w" on instances, "k  w" on wires
+    ELSE LET a == IF d.k = NoVal THEN "" ELSE "attr:A=" \o d.k \o (IF isInst THEN "\tw" ELSE "  w")
              p == IF ~isInst \/ d.props = NoVal THEN "" ELSE "param:P=" \o d.props
          IN IF a # "" /\ p # "" THEN a \o ";" \o p ELSE a \o p
 VInst(s, i) == [name |-> StripEsc(s.instData[i].name), ref |-> StripEsc(NameOfD(s, s.instRef[i])), attr |-> VAttrOf(s.instData[i], TRUE)]
